@@ -4,11 +4,13 @@ EXTENDS GenKeys
 O1 == 0 + (26)
 O2 == O1 + (676)
 O3 == O2 + (NWalks)
-Count == O3
+O4 == O3 + (NRare)
+Count == O4
 ItemAt(g) ==
   IF g <= O1 THEN Depth1At(g - 0)
   ELSE IF g <= O2 THEN Depth2At(g - O1)
-  ELSE WalkAt(g - O2)
+  ELSE IF g <= O3 THEN WalkAt(g - O2)
+  ELSE RareAt(g - O3)
 VARIABLE n
 INSTANCE GenBase
 =============================================================================
